@@ -455,6 +455,114 @@ def run_both(cfg, doc):
     return {"same": same, "diff": [str(a)[:200], str(b)[:200]], "n_vars": 0, "ran": False}
 
 
+
+# ------------------------------------------------------------------------------------------ derived readouts
+
+
+def readout_settings(ro) -> dict:
+    return {"mode.readout.times": jleaf(np.asarray(ro.times, dtype=float)),
+            "mode.readout.start_time": jleaf(ro.start_time),
+            "mode.readout.non_destructive": jleaf(ro.non_destructive)}
+
+
+def do_derive(cfg, op) -> dict:
+    """one derivation from the loaded readout: replace(**changes) | the setters (for `times` of an observation: through
+    Processor.replace({'observation.readout.times': v}), the path of a sweep) | deepcopy"""
+    ro = cfg.running_mode.readout
+    before = readout_settings(ro)
+    ch = dict(op["changes"])
+    try:
+        if op["op"] == "replace":
+            new = ro.replace(**ch)
+        elif op["op"] == "setter":
+            if set(ch) == {"times"} and type(cfg.running_mode).__name__ == "Observation":
+                from pyxel.pipelines import Processor
+
+                proc = Processor(detector=cfg.detector, pipeline=cfg.pipeline, observation_mode=cfg.running_mode)
+                new = proc.replace({"observation.readout.times": ch["times"]}).observation.readout
+            else:
+                new = copy.deepcopy(ro)
+                for k, v in ch.items():
+                    setattr(new, k, v)
+        elif op["op"] == "copy":
+            new = copy.deepcopy(ro)
+        else:
+            raise ValueError(op["op"])
+    except Exception as ex:  # noqa: BLE001
+        return {"raised": type(ex).__name__, "msg": str(ex)[:200], "before": before, "after": readout_settings(ro)}
+    return {"settings": readout_settings(new), "same_object": new is ro, "before": before,
+            "after": readout_settings(ro)}
+
+
+# ------------------------------------------------------------------------------------------ sweep over the readout times
+
+
+def _values_equal(a, b) -> bool:
+    a = np.asarray(a, dtype=float)
+    b = np.asarray(b, dtype=float)
+    return a.shape == b.shape and bool(np.array_equal(a, b, equal_nan=True))
+
+
+def handle_sweeprun(p):
+    """A loaded observation that sweeps 'observation.readout.times' (with dask: Readout.replace(times=...) per point)
+    against (a) one Exposure per point built in Python with the readout settings of the file and (b) the same
+    Observation built in Python."""
+    import pyxel
+    from pyxel.exposure import Exposure, Readout
+
+    doc = p["doc"]
+    try:
+        cfg = pyxel.load(dump_yaml(doc, "sweep"))
+    except Exception as ex:  # noqa: BLE001
+        return {"loaded": False, "exc": type(ex).__name__, "msg": str(ex)[:300]}
+    dk = [k for k in DET_KEY.values() if k in doc][0]
+    det = dk.split("_")[0]
+    obs = doc["observation"]
+    ro = obs.get("readout") or {}
+    par = [q for q in obs["parameters"] if q["key"] == "observation.readout.times"][0]
+    out = {"loaded": True, "settings": readout_settings(cfg.running_mode.readout)}
+    try:
+        res = pyxel.run_mode(mode=cfg.running_mode, detector=cfg.detector, pipeline=cfg.pipeline)
+    except Exception as ex:  # noqa: BLE001
+        out.update(ran=False, exc=type(ex).__name__, msg=str(ex)[:300])
+        return out
+    out["ran"] = True
+    bucket = res["bucket"] if "bucket" in res.children else res
+    diff = []
+    for t in par["values"]:
+        d2 = copy.deepcopy(doc)
+        exp = Exposure(readout=Readout(times=[t], start_time=ro.get("start_time", 0.0),
+                                       non_destructive=ro.get("non_destructive", False)),
+                       pipeline_seed=obs.get("pipeline_seed"))
+        ref = pyxel.run_mode(mode=exp, detector=py_detector(det, d2[dk]), pipeline=py_pipeline(d2["pipeline"]))
+        for var in ("photon", "charge", "pixel", "signal", "image"):
+            try:
+                got = bucket[var].sel(time=t).values
+                want = ref[var].isel(time=0).values
+            except Exception as ex:  # noqa: BLE001
+                diff.append(f"{var}@{t}: {type(ex).__name__}")
+                continue
+            if not _values_equal(got, want):
+                g, w = np.asarray(got, dtype=float), np.asarray(want, dtype=float)
+                diff.append(f"{var}@{t}: sweep {g.flat[0] if g.size else None!r} vs python-built {w.flat[0] if w.size else None!r}")
+    out["points"] = len(par["values"])
+    out["same_points"] = not diff
+    out["diff"] = diff[:6]
+    # (b) the same observation built in Python
+    d3 = copy.deepcopy(doc)
+    try:
+        res2 = pyxel.run_mode(mode=py_mode("observation", d3["observation"]), detector=py_detector(det, d3[dk]),
+                              pipeline=py_pipeline(d3["pipeline"]))
+        fa, fb = tree_fingerprint(res), tree_fingerprint(res2)
+        bd = sorted(k for k in set(fa) | set(fb) if fa.get(k) != fb.get(k))
+        out["same_built"] = not bd
+        out["diff_built"] = bd[:6]
+    except Exception as ex:  # noqa: BLE001
+        out["same_built"] = False
+        out["diff_built"] = [f"python-built observation raised {type(ex).__name__}: {str(ex)[:200]}"]
+    return out
+
+
 def handle_settings(p):
     import pyxel
 
@@ -468,6 +576,8 @@ def handle_settings(p):
     except Exception as ex:  # noqa: BLE001
         return {"loaded": False, "exc": type(ex).__name__, "msg": str(ex)[:300]}
     out = {"loaded": True, "settings": read_settings(cfg, doc)}
+    if p.get("derive"):
+        out["derived"] = [do_derive(cfg, op) for op in p["derive"]]
     if p.get("run"):
         out["run"] = run_both(cfg, doc)
     return out
@@ -484,4 +594,6 @@ def handle(p):
         return handle_keys(p)
     if k == "settings":
         return handle_settings(p)
+    if k == "sweeprun":
+        return handle_sweeprun(p)
     raise ValueError(k)
